@@ -172,7 +172,7 @@ def value (r : DateRules) (dt : DateTime) : Ph → Except Crash Str
   | .A => match r.meridiem with
           | none => .error .keyError
           | some l => getIdx l (if dt.hour < 12 then 0 else 1)
-  | .h => .ok (dec (dt.hour % 12))
+  | .h => .ok (dec (if dt.hour % 12 = 0 then 12 else dt.hour % 12))   -- `str(dateObj.hour%12 or 12)`
   | .H0 => .ok (pad2 dt.hour)
   | .H => .ok (dec dt.hour)
   | .m0 => .ok (pad2 dt.minute)
